@@ -29,7 +29,8 @@ func checkExternal(v map[string]any, p tree.Path) error {
 	if !ok {
 		return nil
 	}
-	if !b.(bool) {
+	if external, ok := b.(bool); !ok || !external {
+		// the schema also admits a string here (set by a variable that has not been interpolated)
 		return nil
 	}
 
